@@ -117,6 +117,8 @@ static const unsigned opn2_emulatorSupport = 0
 //! Check emulator availability
 bool opn2_isEmulatorAvailable(int emulator)
 {
+    if(emulator < 0 || emulator >= 32) // outside the support mask: the shift below would alias a valid id
+        return false;
     return (opn2_emulatorSupport & (1u << (unsigned)emulator)) != 0;
 }
 
